@@ -351,6 +351,26 @@ impl<'a> Sem<'a> {
         Err(Undef(format!("unknown variable {}", name)))
     }
 
+    /// the literal a variable is bound to, when its innermost definition is a literal (parameters are not)
+    fn literal_of_var(&self, name: &str, scope: &Scope) -> Option<V> {
+        let mut s = Some(scope);
+        while let Some(sc) = s {
+            if let Some(p) = sc.params {
+                if p.contains_key(name) {
+                    return None;
+                }
+            }
+            if let Some(l) = sc.lets.iter().rev().find(|l| l.name == name) {
+                return match &l.val {
+                    Arg::Lit(v) => Some(v.clone()),
+                    _ => None,
+                };
+            }
+            s = sc.parent;
+        }
+        None
+    }
+
     /// values denoted by a let / argument expression
     pub fn arg_values(&self, a: &Arg, ctx: &V, scope: &Scope) -> Res<Vec<QR>> {
         match a {
@@ -575,6 +595,17 @@ impl<'a> Sem<'a> {
                             return self.ordering_negated(&s, *op, l, *some);
                         }
                         Ok(binary_lit(&s, *op, pol, l, *some))
+                    }
+                    // a literal bound to a variable is that literal (C15): `let v = 1 .. a == %v` reads `a == 1`
+                    Arg::Q(false, rq) if rq.len() == 1 && matches!(&rq[0], Part::Var(n) if self.literal_of_var(n, scope).is_some()) => {
+                        let l = match &rq[0] {
+                            Part::Var(n) => self.literal_of_var(n, scope).unwrap(),
+                            _ => unreachable!(),
+                        };
+                        if !op.has_neg() && pol {
+                            return self.ordering_negated(&s, *op, &l, *some);
+                        }
+                        Ok(binary_lit(&s, *op, pol, &l, *some))
                     }
                     _ => Err(Undef("query/function right-hand sides are outside refsem (C13/C15/C18 use differential oracles)".into())),
                 }
